@@ -31,11 +31,12 @@ ASSUMPTIONS = ['CachedMethods compatibility shim',
 CONFIG = {
     'quick': {'shards': 16, 'budget_s': 200, 'n_corpus': 320, 'n_si': 400, 'n_boundary': 1, 'n_rx': 40, 'big': False,
               'floors': {'evaluations': 1200, 'distinct_nontrivial': 400, 'roundtrips': 900, 'bytes.compared-with-reference': 750,
-                         'si.packs': 350, 'reactions.roundtrips': 20, 'reactions.empty-role': 12, 'pyxsan.loads': 1000000}},
+                         'si.packs': 350, 'reactions.roundtrips': 20, 'reactions.empty-role': 12, 'pyxsan.loads': 1000000,
+                         'reactions.hypercoordinate': 40}},
     'thorough': {'shards': 16, 'budget_s': 2400, 'n_corpus': 4200, 'n_si': 4200, 'n_boundary': 6, 'n_rx': 80, 'big': True,
                  'floors': {'evaluations': 12000, 'distinct_nontrivial': 6000, 'roundtrips': 10000,
                             'bytes.compared-with-reference': 8000, 'si.packs': 4200, 'reactions.roundtrips': 60,
-                            'reactions.empty-role': 30, 'pyxsan.loads': 10000000}},
+                            'reactions.empty-role': 30, 'pyxsan.loads': 10000000, 'reactions.hypercoordinate': 40}},
 }
 
 
@@ -383,6 +384,25 @@ def worker(ctx):
             rx = ReactionContainer([rng.choice(src_pool) for _ in range(a)], [rng.choice(src_pool) for _ in range(cc)],
                                    [rng.choice(src_pool) for _ in range(b)])
             reaction_roundtrip(ctx, rx, 'reaction%r' % ((a, b, cc),))
+        # atoms with 8-15 neighbours (the 4-bit neighbour count uses its high bit) in every position of every role
+        stars = {}
+        for name, m in boundary_molecules(rng):
+            if name.startswith('star('):
+                kk = int(name[5:-1])
+                if kk >= 7:
+                    set_coords(m, rng, True)
+                    stars[kk] = m
+        for j, (kk, star) in enumerate(sorted(stars.items())):
+            if not ctx.mine(j):
+                continue
+            other = rng.choice(small)
+            for layout in range(6):
+                roles = [[], [], []]
+                roles[layout % 3] = [star, other] if layout < 3 else [other, star, other]
+                roles[(layout + 1) % 3] = [other]
+                rx = ReactionContainer(roles[0], roles[2], roles[1])
+                ctx.count('reactions.hypercoordinate')
+                reaction_roundtrip(ctx, rx, 'reaction-with-star(%d)-layout-%d' % (kk, layout))
     # published packs
     p = os.path.join(REPO, 'pach', 'SI.zip')
     if os.path.exists(p):
